@@ -39,6 +39,12 @@ type Omit struct {
 	F    float64 `db:"f,omitempty"`
 }
 
+// OmitAll has omitempty members only: a zero value contributes no column at all.
+type OmitAll struct {
+	Auto int    `db:"auto,omitempty"`
+	Gen  string `db:"gen,omitempty"`
+}
+
 // OmitKinds has omitempty members whose kinds are not scalars: structs (a Scanner/Valuer,
 // sql.Null*), byte slices (nil and empty-but-not-nil differ for IsZero), interfaces, bool,
 // pointers to structs.
@@ -462,6 +468,7 @@ var Entries = []Entry{
 	e(Address{}, "struct", false, "id", "district", "street"),
 	e(Manager{}, "struct", false, "id", "name", "address_id"),
 	e(Omit{}, "struct", false, "id", "name", "v", "w", "f"),
+	e(OmitAll{}, "struct", false, "auto", "gen"),
 	e(OmitKinds{}, "struct", false, "id", "ns", "ni", "v", "bs", "a", "ok", "pv"),
 	e(Emb{}, "struct", false, "id", "name", "address_id", "extra"),
 	e(Loc{}, "struct", false, "lat", "lon"),
